@@ -112,6 +112,8 @@ func writeClass(s string) string {
 var readErrors = []error{errInjected, io.ErrUnexpectedEOF, io.ErrClosedPipe, io.ErrNoProgress, io.ErrShortBuffer, os.ErrDeadlineExceeded, fmt.Errorf("wrapped: %w", io.EOF)}
 
 type faultReader struct {
+	oneShot  bool // the error is reported once (with or without data); later reads go on with the rest of the data, then io.EOF
+	reported bool
 	err      error
 	data     []byte
 	at       int
@@ -126,7 +128,16 @@ func (r *faultReader) Read(p []byte) (int, error) {
 	if r.err == nil {
 		r.err = errInjected
 	}
+	if r.oneShot && r.reported {
+		if r.pos >= len(r.data) {
+			return 0, io.EOF
+		}
+		n := copy(p, r.data[r.pos:])
+		r.pos += n
+		return n, nil
+	}
 	if r.pos >= r.at {
+		r.reported = true
 		return 0, r.err
 	}
 	n := r.at - r.pos
@@ -139,6 +150,7 @@ func (r *faultReader) Read(p []byte) (int, error) {
 	copy(p, r.data[r.pos:r.pos+n])
 	r.pos += n
 	if r.pos >= r.at && r.withData {
+		r.reported = true
 		return n, r.err
 	}
 	return n, nil
@@ -266,6 +278,7 @@ func runC16(ctx *core.Ctx) {
 				if v&2 != 0 {
 					fr.chunk = 1 + cs.R.Intn(7)
 				}
+				fr.oneShot = (o+v)%3 == 0 // a transient failure: the source would go on if asked again
 				var buf flushingBuffer
 				// the failing source is offered through reader types with extra methods (Len, WriteTo, ReadByte ...),
 				// the destination through writer types with and without WriteString / Flush / Close / Sync
@@ -288,7 +301,7 @@ func runC16(ctx *core.Ctx) {
 					// with the complete input delivered before the error, what was written must be a prefix
 					cs.Violate("C16:reader-fault:not-a-prefix", fmt.Sprintf("source failed after the whole input; written %q is not a prefix of %q", core.Clip(got, 200), core.Clip(want, 200)), wit(map[string]interface{}{"offset": o}))
 				}
-				fr2 := &faultReader{data: []byte(in), at: o, withData: v&1 == 1, chunk: fr.chunk, err: fr.err}
+				fr2 := &faultReader{data: []byte(in), at: o, withData: v&1 == 1, chunk: fr.chunk, err: fr.err, oneShot: fr.oneShot}
 				b := env.Pol.SanitizeReader(wrapReader(fr2, kind+1, func() int { return len(fr2.data) - fr2.pos }))
 				cs.Eval()
 				if b == nil || b.Len() != 0 {
